@@ -147,11 +147,15 @@ def strategyFromOptions (m : List (String × String)) : Except StrategyError FSt
 
 /-! ### into the placement model -/
 
-/-- The datacenter number of a name `dc<n>`; any other name gets a number no ring node has (≥ 1000000, by position),
+/-- The datacenter number of a name `dc<n>` (exactly as `dc_name` spells it: `dc01`, `dc1_0`, `dc+1` are OTHER
+names); any other name gets a number no ring node has (≥ 1000000, by position),
 so that it stays a distinct key which matches no datacenter of the ring. -/
 def nameToDc (pos : Nat) (name : String) : Nat :=
-  match (if name.startsWith "dc" then (name.drop 2).toString.toNat? else none) with
-  | some n => n
+  let digits := (name.drop 2).toString.toList
+  -- exactly the names `dc_name` produces: "dc" + canonical decimal (ASCII digits, no leading zero, no `_`)
+  let canonical := !digits.isEmpty && digits.all (fun c => '0' ≤ c && c ≤ '9') && (digits.length == 1 || digits.head? != some '0')
+  match (if name.startsWith "dc" && canonical then parseDigits digits else none) with
+  | some n => if n < 1000000 then n else 1000000 + pos
   | none => 1000000 + pos
 
 def toStrategy : FStrategy → Strategy
